@@ -27,6 +27,14 @@ const JQ16: &str = "/usr/bin/jq";
 const SIG_POSTFIX: &str = "C24/parse-reject/postfix-on-constructed-term";
 /// known finding: `error(f)` with f producing no output raises "no value" instead of producing nothing
 const SIG_ERROR_EMPTY: &str = "C24/zero-output-argument/error(empty)-raises-no-value";
+/// known finding: a string with an interpolation is rejected as an object key
+const SIG_INTERP_KEY: &str = "C24/parse-reject/interpolated-object-key";
+/// known finding: `{$v}` object-construction shorthand is rejected
+const SIG_VAR_SHORTHAND: &str = "C24/parse-reject/object-variable-shorthand";
+/// known finding: `"" | split(",")` / `"" / ","` is [""] instead of []
+const SIG_SPLIT_EMPTY: &str = "C24/proxy/values/split-of-empty-string";
+/// known finding: `last(f)` of an empty stream is null in jq <= 1.7.1 (`reduce f as $x (null; $x)`), nothing in succinctly
+const SIG_LAST_EMPTY: &str = "C24/proxy/values/last-of-empty-stream";
 const SIG_FORMAT_LITERAL: &str = "C24/parse-reject/format-string-literal";
 const TWO53: f64 = 9007199254740992.0;
 
@@ -245,7 +253,7 @@ fn template(msg: &str) -> String {
             }
             o.push_str("\"S\"");
             i = (j + 1).min(cs.len());
-        } else if c == '\'' {
+        } else if c == '\'' && !(i > 0 && cs[i - 1].is_ascii_alphabetic()) {
             let mut j = i + 1;
             while j < cs.len() && cs[j] != '\'' {
                 j += 1;
@@ -412,9 +420,9 @@ fn calibrate(goldens: &[Golden], probes: &[Probe], threads: usize) -> Calibratio
             }
             Err(why) => {
                 c.probe_disagree.push((p.id.clone(), why));
-                if let Some(ErrMsg::Str(m)) = own {
-                    c.unstable.insert(template(&m));
-                }
+                // the recorded 1.7.1 wording that 1.6 does not produce; 1.6's own wording belongs to
+                // constructs the core profile excludes (regex flags, slice paths, NaN indices, implode)
+                let _ = own;
                 c.unstable.insert(template(&p.msg));
             }
         }
@@ -422,6 +430,24 @@ fn calibrate(goldens: &[Golden], probes: &[Probe], threads: usize) -> Calibratio
     for u in c.unstable.clone() {
         c.stable.remove(&u);
     }
+    c
+}
+
+/// Development aid only (never set by run.sh): VH_C24_CAL_CACHE=<file> reuses a previous
+/// calibration so that iterating on the generator does not re-run 706 reference spawns.
+fn calibrate_cached(goldens: &[Golden], probes: &[Probe], threads: usize) -> Calibration {
+    let Ok(path) = std::env::var("VH_C24_CAL_CACHE") else {
+        return calibrate(goldens, probes, threads);
+    };
+    if let Ok(t) = std::fs::read_to_string(&path) {
+        if let Ok(v) = serde_json::from_str::<Value>(&t) {
+            let pairs = |k: &str| -> Vec<(String, String)> { v[k].as_array().map(|a| a.iter().map(|x| (x[0].as_str().unwrap_or("").to_string(), x[1].as_str().unwrap_or("").to_string())).collect()).unwrap_or_default() };
+            let set = |k: &str| -> BTreeSet<String> { v[k].as_array().map(|a| a.iter().filter_map(|x| x.as_str().map(str::to_string)).collect()).unwrap_or_default() };
+            return Calibration { golden_agree: v["ga"].as_u64().unwrap_or(0) as usize, golden_total: goldens.len(), golden_disagree: pairs("gd"), probe_agree: v["pa"].as_u64().unwrap_or(0) as usize, probe_total: probes.len(), probe_disagree: pairs("pd"), stable: set("stable"), unstable: set("unstable") };
+        }
+    }
+    let c = calibrate(goldens, probes, threads);
+    let _ = std::fs::write(&path, json!({"ga": c.golden_agree, "pa": c.probe_agree, "gd": c.golden_disagree.iter().map(|x| json!([x.0, x.1])).collect::<Vec<_>>(), "pd": c.probe_disagree.iter().map(|x| json!([x.0, x.1])).collect::<Vec<_>>(), "stable": c.stable.iter().collect::<Vec<_>>(), "unstable": c.unstable.iter().collect::<Vec<_>>()}).to_string());
     c
 }
 
@@ -1055,11 +1081,14 @@ struct ProxyEnv {
 }
 
 /// Known-finding signatures: a narrow predicate on the failing case maps to a stable name.
-fn known_signature(kind: &str, c: &ProxyCase, detail: &str) -> Option<String> {
+fn known_signature(kind: &str, c: &ProxyCase, _detail: &str) -> Option<String> {
     let has = |o: &str| c.ops.iter().any(|x| x == o);
     match kind {
-        "parse-reject" if has("format-interp") && detail.contains("unexpected character '\"'") => Some(SIG_FORMAT_LITERAL.into()),
-        "parse-reject" if has("postfix-term") && (detail.contains("'['") || detail.contains("'.'")) => Some(SIG_POSTFIX.into()),
+        // a program containing one of these spellings is rejected whatever else it contains
+        "parse-reject" if has("format-interp") => Some(SIG_FORMAT_LITERAL.into()),
+        "parse-reject" if has("interp-key") => Some(SIG_INTERP_KEY.into()),
+        "parse-reject" if has("obj-var-shorthand") => Some(SIG_VAR_SHORTHAND.into()),
+        "parse-reject" if has("postfix-term") => Some(SIG_POSTFIX.into()),
         _ => None,
     }
 }
@@ -1098,6 +1127,12 @@ fn compare_docs(c: &ProxyCase, env: &ProxyEnv, a: &[DocRes], b: &[DocRes], docs:
                     }
                 }
             }
+            if c.program.starts_with("last(") && rb.ys.is_empty() && ra.ys.len() == 1 && matches!(ra.ys[0], J::Null) {
+                fail!(SIG_LAST_EMPTY, {"case": case()});
+            }
+            if (c.program.contains("split(") || c.program.contains(" / \"")) && docs[i].contains("\"\"") && strip_empty_string_arrays(&ra.ys) == strip_empty_string_arrays(&rb.ys) {
+                fail!(SIG_SPLIT_EMPTY, {"case": case()});
+            }
             fail!(format!("C24/proxy/values/{}", ops_sig(&c.ops)), {"case": case()});
         }
         if let (Some(ma), Some(mb)) = (&ra.err, &rb.err) {
@@ -1124,6 +1159,11 @@ fn compare_docs(c: &ProxyCase, env: &ProxyEnv, a: &[DocRes], b: &[DocRes], docs:
         }
     }
     Ok(())
+}
+
+/// compact text of the outputs with every `[""]` rewritten to `[]`
+fn strip_empty_string_arrays(v: &[J]) -> String {
+    v.iter().map(|j| to_compact(j).replace("[\"\"]", "[]")).collect::<Vec<_>>().join("\n")
 }
 
 fn looks_like_message(s: &str) -> bool {
@@ -1278,6 +1318,24 @@ pub fn run(cx: &mut Ctx) {
     cx.assume("The recorded corpus under /repo/tests/data (jq-golden/cases, jq-error-messages.tsv) is what jq 1.7.1 printed; it is read at run time and never regenerated. The repository's manifests jq-golden-known-failures.txt / jq-error-known-divergences.txt and docs/compliance/jq/limitations.md (+ the Known Limitations of docs/reference/jq-language.md) define the documented divergences, which are excluded by construction.");
     cx.assume("(a) rests on jq's defining equations for the wrapper forms (jq 1.7.1 manual and builtin.jq definitions of first/limit/reduce/foreach/try/label); each law is applied only where it is sound (e.g. [f] of an erroring f is the error alone; first(f) ignores an error after the first output; error probes record no outputs, so they are only wrapped in prefix-erasing forms first).");
     cx.assume("(b) /usr/bin/jq is jq 1.6, a proxy: it can only confirm agreement where 1.6 == 1.7.1. The generator emits only constructs outside every measured 1.6-vs-recording disagreement cluster and every 1.6->1.7 change known from the changelog; message text is compared only for message families the recorded probes show identical in both versions; a disagreement is a finding only after checking it against the recordings and limitations.md. Numbers are compared as doubles; documents whose outputs exceed 2^53 are discarded (documented i64/f64 arithmetic). Trusted: Rust str::parse::<f64>, the harness JSON value parser.");
+    // development aid (never set by run.sh): dump N generated proxy cases as JSON lines and stop
+    if let Ok(n) = std::env::var("VH_C24_DUMP") {
+        use proptest::strategy::{Strategy, ValueTree};
+        let n: u64 = n.parse().unwrap_or(100);
+        let strat = EntropyStrategy { max_len: 512 };
+        let base = cx.sub_seed("proxy");
+        for i in 0..n {
+            let mut r = runner_for(base, i);
+            if let Ok(t) = strat.new_tree(&mut r) {
+                let e = t.current();
+                let mut u = Src::new(&e.0);
+                let c = gen_proxy(&mut u);
+                println!("{}", json!({"program": c.program, "docs": c.docs, "ops": c.ops, "raw": c.raw, "catch_dot": c.catch_dot}));
+            }
+        }
+        cx.infra("dump mode");
+        return;
+    }
     if !cli::cli_available() {
         cx.infra(format!("CLI binary missing: {}", cli::cli_path()));
         return;
@@ -1305,7 +1363,7 @@ pub fn run(cx: &mut Ctx) {
     // calibration of the proxy against the recordings
     // (only needed by the proxy sub-check; skipped when a development run selects other sub-checks)
     let want_proxy = !cx.skip("proxy") && cx.replay_entropy.as_ref().map(|r| r.0 == "proxy").unwrap_or(true);
-    let cal = if have16 && want_proxy { Some(calibrate(&goldens, &probes, cx.threads)) } else { None };
+    let cal = if have16 && want_proxy { Some(calibrate_cached(&goldens, &probes, cx.threads)) } else { None };
     let env = ProxyEnv { stable: cal.as_ref().map(|c| c.stable.clone()).unwrap_or_default() };
     if let Some(c) = &cal {
         cx.extra.insert(
